@@ -120,7 +120,73 @@ def paramgroup_record(present, exclusive, required):
     return dict(op='paramgroup', present=present, exclusive=exclusive, required=required, error=err)
 
 
+class RecMeter:
+    """a progress meter that records the protocol events"""
+
+    def __init__(self, total, log):
+        self.total, self.log = total, log
+        log['total'] = total
+
+    def increment(self, delta=1):
+        self.log['events'].append(dict(e='inc', d=int(delta), n=0))
+
+    def moveto(self, n):
+        self.log['events'].append(dict(e='moveto', d=0, n=int(n)))
+
+    def close(self):
+        self.log['events'].append(dict(e='close', d=0, n=0))
+
+    def __enter__(self):
+        return self
+
+    def __exit__(self, *a):
+        self.close()
+
+
+def progress_records(rng):
+    import os, shutil, tempfile
+    from gambit.metric import jaccarddist_matrix, jaccarddist_pairwise
+    from gambit.seq import SequenceFile
+    from gambit.sigs.calc import calc_file_signatures
+    from gambit.util.progress import iter_progress
+    from .. import world as W
+    out = []
+
+    def run(name, expected, fn):
+        log = dict(total=-1, events=[])
+        factory = lambda total, initial=0, **kw: RecMeter(total, log)
+        returned = True
+        try:
+            fn(factory)
+        except Exception:
+            returned = False
+        out.append(dict(op='progress', call=name, total=log['total'], expected_total=expected, events=log['events'], returned=returned))
+    sigs = [np.array(sorted(rng.sample(range(1000), rng.randint(0, 30))), dtype='u2') for _ in range(7)]
+    for chunk in (None, 1, 3, 10):
+        for nq in (1, 3):
+            run(f'jaccarddist_matrix chunk={chunk}', nq * 7, lambda f: jaccarddist_matrix(sigs[:nq], sigs, chunksize=chunk, progress=f))
+    run('jaccarddist_matrix ref_indices', 2 * 4, lambda f: jaccarddist_matrix(sigs[:2], sigs, ref_indices=[6, 0, 0, 3], chunksize=3, progress=f))
+    for flat in (False, True):
+        run(f'jaccarddist_pairwise flat={flat}', 21, lambda f: jaccarddist_pairwise(sigs, flat=flat, progress=f))
+    run('jaccarddist_pairwise single', 0, lambda f: jaccarddist_pairwise(sigs[:1], progress=f))
+    run('iter_progress', 5, lambda f: [x for x in iter_progress(list(range(5)), f)])
+    tmp = tempfile.mkdtemp(dir=tlc.TMP_ROOT)
+    try:
+        files = [W.write_fasta(os.path.join(tmp, f'g{i}.fa'), [W.rand_seq(rng, 300)]) for i in range(4)]
+        sf = SequenceFile.from_paths(files, 'fasta', 'auto')
+        ks = KmerSpec(5, 'AT')
+        for conc in (None, 'threads', 'processes'):
+            run(f'calc_file_signatures {conc}', 4, lambda f: calc_file_signatures(ks, sf, progress=f, concurrency=conc, max_workers=2))
+        bad = sf[:2] + SequenceFile.from_paths([os.path.join(tmp, 'missing.fa')], 'fasta', 'auto') + sf[2:]
+        for conc in (None, 'threads'):
+            run(f'calc_file_signatures {conc} with unreadable file', 5, lambda f: calc_file_signatures(ks, bad, progress=f, concurrency=conc, max_workers=2))
+    finally:
+        shutil.rmtree(tmp, ignore_errors=True)
+    return out
+
+
 def run(ctx):
+    ctx.mc('Progress', 'MC_Progress.cfg', workers=4, note='progress-meter protocol: bounded, monotone, nothing after close, complete on return')
     ctx.mc('SigList', 'MC_SigList.cfg', workers=8, count=True, note='(a state-machine run so that the evidence carries states/transitions)')
     rng = ctx.rng
     recs = []
@@ -154,6 +220,7 @@ def run(ctx):
         for ex in (False, True):
             for rq in (False, True):
                 recs.append(paramgroup_record(list(present), ex, rq))
+    recs += progress_records(rng)
     n, bad = tlc.judge('Judge_EXT', recs)
     ctx.traces += n
     ctx.evaluations += n
@@ -166,7 +233,8 @@ def run(ctx):
     ctx.add_samples([dict(family='extensions', record=recs[5])], limit=1)
     ctx.rule_parts.append('[extensions] Taxon tree operations on every forest <= 4/5 taxa x every subset <= 3; chunk_slices for n<12 x size -1..13; '
                           'jaccard_generic/jaccard_bits on subset pairs; dense<->sparse; label stripping on 20 path shapes; KmerSpec validation and '
-                          'JSON/pickle round trip; dump_dmat_csv -> load_dmat_csv with awkward ids; check_params_group truth table')
+                          'JSON/pickle round trip; dump_dmat_csv -> load_dmat_csv with awkward ids; check_params_group truth table; progress-meter event '
+                          'sequences of jaccarddist_matrix / _pairwise / iter_progress / calc_file_signatures (incl. failing runs)')
     for i, why in bad:
         print(f'EXT-DEVIATION component={recs[i]["op"]} why={why} record={core.canon(recs[i])[:300]}', flush=True)
         ctx.notes.append(f'deviation: {recs[i]["op"]} {why} {core.canon(recs[i])[:400]}')
